@@ -15,6 +15,8 @@ THEOREMS = [
     'Ndn.C17.one_at_a_time', 'Ndn.C17.one_command_per_call',
     'Ndn.C17.timestamps_strict', 'Ndn.C17.guard_only_strict_without_sign_tick',
     'Ndn.C17.guard_only_counterexample', 'Ndn.C17.no_guard_counterexample',
+    # unregister of both front-ends inside the model (and the unserialised legacy unregister of the unchanged tree)
+    'Ndn.C17.unregister_takes_the_lock', 'Ndn.C17.nothing_outside_the_lock', 'Ndn.C17.unchanged_legacy_unregister_overlaps',
     'Ndn.C17.routes_conserved', 'Ndn.C17.routes_once_per_connection', 'Ndn.C17.routes_registered_after_replies',
     'Ndn.C17.response_roundtrip', 'Ndn.C17.response_keys',
     'Ndn.C17.unchanged_register_raises_without_body', 'Ndn.C17.unchanged_unregister_ignores_status',
@@ -22,14 +24,21 @@ THEOREMS = [
     # bytes on the wire (model Ndn.NfdBytes = make_command_v2 / make_command / the v2 command Interest / parse_response)
     'Ndn.C17.gen_schemas', 'Ndn.C17.command_names_prefix', 'Ndn.C17.rib_command_names_prefix',
     'Ndn.C17.command_signed_v2', 'Ndn.C17.response_roundtrip_bytes', 'Ndn.C17.legacy_command_name',
+    # the composed model Ndn.NfdBytes.runW: reply bytes -> state machine -> command wires
+    'Ndn.C17.emitted_command_accepted', 'Ndn.C17.every_emitted_wire_accepted', 'Ndn.C17.wire_timestamps_strict',
+    'Ndn.C17.answers200_wire200', 'Ndn.C17.reply_wire_decides', 'Ndn.C17.reply_bytes_never_raise',
+    'Ndn.C17.forwarder_answer_decides', 'Ndn.C17.reply_decode_errors_are_caught',
 ]
 PARTIAL = {}
 TRUSTED = [
-    'C17: the registration state machine sees (verb, prefix, signed timestamp) and reply kinds; that the command it '
-    'emits for (verb, prefix) is the byte-level command of Ndn.NfdBytes (make_command_v2 + make_interest with the '
-    'DigestSha256 signer, resp. make_command) is tied per emitted command by the oracle, which decodes it with the '
-    'library\'s own decoders and verifies digest and signature itself (hashlib); the reply Data (not the Content) is '
-    'the packet codec (C01/C02)',
+    'C17: the composed model (Ndn.NfdBytes.runW) turns the trace of the registration state machine into command Interest '
+    'wires and reply bytes into reply kinds; it is tied to the code by comparing, for every command of every scenario, '
+    'the wire the model emits with the wire the real NfdRegister / NDNApp put on the face, byte for byte (the Interest '
+    'Nonce and the SignatureNonce / nonce component are inputs read from the real command; the timestamp is computed '
+    'by the model from the recorded clock readings), and by handing the model the bytes of the very Data packets the '
+    'scripted forwarder sent.  A Nack reaches the model as an event (its link-layer envelope is C10\'s); that a reply '
+    'packet is matched to the command in flight is the PIT (C03); a byte string that is not a Data packet is dropped '
+    'by the receive loop (C06) and is a no-op in the model',
     'C17: byte-level theorems are about the generic TLV codec and packet models of C08/C01/C02 instantiated with the '
     'schemas generated from nfd_mgmt.py (gen_schemas); codec = tlv_model.py / ndn_format_0_3.py is sampled (there and '
     'in the byte-level stream here); SHA-256 is a parameter H with 32-byte output (the driver runs the Lean SHA-256); '
@@ -39,8 +48,11 @@ TRUSTED = [
     'scheduling are exercised only by the correspondence (virtual-time loop)',
     'C17: the clock enters the model as the advances between consecutive reads (monotone by construction); the '
     'hypothesis of timestamps_strict is that the millisecond clock advances across each 1 ms sleep of the guard loop',
-    'C17: the model of the unchanged legacy front-end does not cover unregister running outside the semaphore '
-    '(several commands in flight); that defect is exhibited by replay only',
+    'C17: the legacy unregister also removes the callback of the prefix from the dispatch table before it queues for '
+    'the command lock; that table is C04\'s and is not part of this model.  The unserialised legacy unregister of '
+    'the unchanged tree is in the model (Cfg.unregLock = false, theorem unchanged_legacy_unregister_overlaps) but is '
+    'not exercised by the correspondence on the repaired /repo (driver front-end v1u, replayed by hand against the '
+    'mutant legacy-unregister-no-semaphore)',
 ]
 RULE = ('scenarios on the virtual-time loop with the real NDNApp (v2 with the real NfdRegister, and legacy), an '
         'in-memory face and a scripted forwarder: 0-3 routes declared before connecting, 1-2 connections, per '
@@ -60,7 +72,10 @@ RULE = ('scenarios on the virtual-time loop with the real NDNApp (v2 with the re
         'Interest parameters, SignatureTime/SignatureNonce/timestamp/nonce at width boundaries (recorded from the real '
         'calls), and a ControlResponse; compared component by component / byte by byte: make_command_v2, make_interest '
         'with DigestSha256Signer(for_interest=True) (wire, final name, signer input, reported ranges, both checkers), '
-        'make_command, the response bytes and parse_response of them. non-trivial = at least two commands or a '
+        'make_command, the response bytes and parse_response of them. In the scenario stream the model is the COMPOSED '
+        'model: it receives the bytes of every Data packet the scripted forwarder sends (valid / broken signature, '
+        'ControlResponse / garbage / no Content) and its command wires are compared byte for byte with the wires on '
+        'the face. non-trivial = at least two commands or a '
         'non-200 reply (byte-level: a keyword besides name or a prefix of two components); distinct = distinct cases')
 
 PREFIXES = ['/a', '/a/b', '/app/x/y', '/8=%00%01/z', '/', '/' + 'k' * 260, '/r1', '/r2/s', '/r3']
@@ -495,6 +510,7 @@ def _decode_command(fe, wire, prefix_names, local=True):
                 out['pfx'] = i
         if param.lifetime != LIFETIME_MS:
             out['lifetime'] = param.lifetime
+        out['n32'] = param.nonce
         if fe == 'v2':
             if len(name) != 6 or enc.Component.get_type(name[5]) != enc.Component.TYPE_PARAMETERS_SHA256:
                 out['fmt'] = 'v2 command is not <prefix>/<verb>/<params>/<params-sha256>'
@@ -504,6 +520,7 @@ def _decode_command(fe, wire, prefix_names, local=True):
                 out['fmt'] = 'signed Interest lacks SignatureTime/SignatureNonce'
             else:
                 out['ts'] = sig.signature_info.signature_time
+                out['n64'] = sig.signature_info.signature_nonce
                 h = hashlib.sha256()
                 for blk in sig.digest_covered_part or []:
                     h.update(blk)
@@ -527,6 +544,7 @@ def _decode_command(fe, wire, prefix_names, local=True):
                 out['fmt'] = 'timestamp/nonce components are not 8 bytes'
                 return out, name
             out['ts'] = struct.unpack('!Q', tsb)[0]
+            out['n64'] = struct.unpack('!Q', nonce)[0]
             si = enc.Component.get_value(name[7])
             sv = bytes(enc.Component.get_value(name[8]))
             si_val = enc.parse_and_check_tl(memoryview(bytes(si)), enc.TypeNumber.SIGNATURE_INFO)
@@ -828,6 +846,11 @@ def run_impl(case):
                           need_sig_ptrs=opts[2])(lambda *a, **k: None)
 
         events = []        # what happened, in the model's vocabulary
+        ev_cmd = []        # for every event: the index of the command it answers (None for calls / connections)
+
+        def ev(e, ci=None):
+            events.append(e)
+            ev_cmd.append(ci)
         causes = {}        # call id -> list of reply kinds that can have ended it
         replies = list(case['replies'])
         default = {'k': 'status', 'code': 200, 'body': True, 'text': 'OK', 'sig': True, 'delay': 0}
@@ -878,7 +901,8 @@ def run_impl(case):
                 typ = 0x06
             c['closed'] = True
             c['reply'] = kind
-            events.append(['k'] + kind)
+            # the model is handed the bytes of the Data packet itself (a Nack stays an event: its envelope is C10's)
+            ev(['k'] + kind if typ == 0x64 else ['d', wire.hex()] + kind, i)
             note_rets(None)
             loop.create_task(face.callback(typ, wire))
             loop.settle()
@@ -908,7 +932,7 @@ def run_impl(case):
                 for c in over:
                     c['closed'] = True
                     c['reply'] = ['t']
-                    events.append(['k', 't'])
+                    ev(['k', 't'], cmds.index(c))
                 if over:
                     note_rets([['t']])
                     continue
@@ -919,7 +943,7 @@ def run_impl(case):
                     for c in late:
                         c['closed'] = True
                         c['reply'] = ['t']
-                        events.append(['k', 't'])
+                        ev(['k', 't'], cmds.index(c))
                     note_rets([['t']] if late else None)
                     continue
                 due = sorted(p for p in pending if p[0] <= now)
@@ -975,7 +999,7 @@ def run_impl(case):
                     loop.switch(0.001)
             conn_marks.append(len(cmds))
             main = loop.create_task(app.main_loop())
-            events.append(['o'] + list(case['routes']))
+            ev(['o'] + list(case['routes']))
             log.append(['K'])
             loop.settle()
 
@@ -996,7 +1020,7 @@ def run_impl(case):
                         coro = un()
                     else:
                         coro = app.unregister(name)
-                    events.append(['c', op, p])
+                    ev(['c', op, p])
                     ts.append(loop.create_task(coro))
                 loop.settle()
                 return ts
@@ -1021,9 +1045,11 @@ def run_impl(case):
                 if t.done() and not t.cancelled():
                     t.exception()     # mark retrieved
         res.update({
-            't0': t0, 'events': events, 'log': log, 'conn_marks': conn_marks,
-            'cmds': [{k: c.get(k) for k in ('verb', 'pfx', 'ts', 'fmt', 'at', 'outstanding', 'reply', 'lifetime', 'late_delivered')}
+            't0': t0, 'events': events, 'ev_cmd': ev_cmd, 'log': log, 'conn_marks': conn_marks,
+            'cmds': [dict({k: c.get(k) for k in ('verb', 'pfx', 'ts', 'fmt', 'at', 'outstanding', 'reply', 'lifetime',
+                                                 'late_delivered', 'n32', 'n64')}, wire=c['wire'].hex())
                      for c in cmds],
+            'local': is_local, 'fe': fe,
             'causes': [[k, v] for k, v in sorted(causes.items())],
             'reads': [list(r) for r in clock.reads],
             'last': getattr(app.registerer if fe == 'v2' else app, '_last_command_timestamp', None),
@@ -1064,6 +1090,42 @@ def _streams(impl):
 
 def _nl(l):
     return ','.join(str(x) for x in l) if l else '.'
+
+
+# For replaying the legacy front-end of an OLDER tree against its configuration of the model (the checks run the
+# repaired configuration): VERIF_C17_LEGACY_CFG=v1p (before C17-5: unregister outside the command lock, no timestamp
+# guard; response fixes in) or v1u (the unchanged tree).  The line is the state machine alone (`sm`), reply kinds
+# instead of reply bytes; the answer to a command that is in flight outside the lock is addressed by its position
+# among those commands (`f:<i>:…`).
+LEGACY_CFG = os.environ.get('VERIF_C17_LEGACY_CFG')
+
+
+def _sm_line_cfg(impl, st, cfg):
+    toks, free, nu = [], [], 0
+    unreg = [i for i, c in enumerate(impl['cmds']) if c['verb'] == 'u']
+    for e, ci in zip(impl['events'], impl['ev_cmd']):
+        if e[0] == 'o':
+            toks.append('o:' + '|'.join(str(p) for p in e[1:]))
+            continue
+        if e[0] == 'c':
+            toks.append(f'c:{e[1]}:{e[2]}')
+            if e[1] == 'u' and nu < len(unreg):
+                free.append(unreg[nu])
+                nu += 1
+            continue
+        kind = e[2:] if e[0] == 'd' else e[1:]
+        if kind[0] == 's':
+            t = f"s:{'~' if kind[1] is None else kind[1]}:{int(kind[2])}:{int(kind[3])}"
+        elif kind[0] == 'g':
+            t = f'g:{int(kind[1])}'
+        else:
+            t = kind[0]
+        if ci in free:
+            toks.append(f'f:{free.index(ci)}:{t}')
+            free.remove(ci)
+        else:
+            toks.append('k:' + t)
+    return f"C17 sm {cfg} {impl['t0']} {_nl(st[0])} {_nl(st[1])} {_nl(st[2])} {_nl(st[3])} {';'.join(toks) or '.'}"
 
 
 def _cpv_text(fields):
@@ -1134,20 +1196,28 @@ def model_line(case, impl):
     st = _streams(impl)
     if st is None:
         return None
+    if case['fe'] == 'v1' and LEGACY_CFG:
+        return _sm_line_cfg(impl, st, LEGACY_CFG)
+    # the composed model: it is handed the reply BYTES and answers with the command BYTES.  The random numbers of the
+    # k-th command (Interest Nonce, SignatureNonce / nonce component) are inputs, read from the command the real run
+    # sent; the timestamp is not: the model computes it from the clock readings.
+    from ndn import encoding as enc
     toks = []
     for e in impl['events']:
         if e[0] == 'o':
             toks.append('o:' + '|'.join(str(p) for p in e[1:]))
         elif e[0] == 'c':
             toks.append(f'c:{e[1]}:{e[2]}')
-        elif e[1] == 's':
-            toks.append(f"k:s:{'~' if e[2] is None else e[2]}:{int(e[3])}:{int(e[4])}")
-        elif e[1] == 'g':
-            toks.append(f'k:g:{int(e[2])}')
+        elif e[0] == 'd':
+            toks.append('d:' + (e[1] or '-'))
         else:
             toks.append('k:' + e[1])
     fe = 'v2' if case['fe'] == 'v2' else 'v1'
-    return f"C17 sm {fe} {impl['t0']} {_nl(st[0])} {_nl(st[1])} {_nl(st[2])} {_nl(st[3])} {';'.join(toks) or '.'}"
+    pfx = '|'.join(','.join(bytes(c).hex() for c in enc.Name.normalize(p)) or '.' for p in PREFIXES)
+    n32 = [c.get('n32') or 0 for c in impl['cmds']]
+    n64 = [c.get('n64') or 0 for c in impl['cmds']]
+    return (f"C17 smw {fe} {'l' if impl.get('local', True) else 'h'} {impl['t0']} {_nl(st[0])} {_nl(st[1])} {_nl(st[2])} "
+            f"{_nl(st[3])} {pfx} {_nl(n32)} {_nl(n64)} {';'.join(toks) or '.'}")
 
 
 def _hexlist(x):
@@ -1227,17 +1297,32 @@ def model_obs(answer, case, impl):
         if tok[0] == 'C':
             head, ts = tok.split('@')
             _, verb, pfx, _ = head.split(':')
-            trace.append(['C', verb, int(pfx), int(ts)])
+            ts, wire = (ts.split('=') + [None])[:2]
+            trace.append(['C', verb, int(pfx), int(ts), '' if wire == '-' else wire])
         elif tok[0] == 'R':
             cid, r = tok[1:].split('=')
             trace.append(['R', int(cid), {'T': True, 'F': False}.get(r, r)])
         else:
             trace.append([tok])
     st = _streams(impl)
+    if case['fe'] == 'v1' and LEGACY_CFG:
+        # the state machine alone: no wires to compare; `_last_command_timestamp` is not kept by these trees
+        return {'trace': [t[:4] if t[0] == 'C' else t for t in trace], 'reads_used': used[:4] == [len(x) for x in st]}
     return {'trace': trace, 'reads_used': used[:4] == [len(x) for x in st], 'last': used[4]}
 
 
 def impl_obs(impl):
+    if impl['mode'] == 'sm' and LEGACY_CFG and impl.get('fe') == 'v1':
+        trace = []
+        for e in impl['log']:
+            if e[0] == 'C':
+                c = impl['cmds'][e[1]]
+                trace.append(['C', c['verb'], c['pfx'], c['ts']])
+            elif e[0] == 'ret':
+                trace.append(['R', e[1], e[2]])
+            elif e[0] == 'K':
+                trace.append(['K'])
+        return {'trace': trace, 'reads_used': True}
     if impl['mode'] == 'by':
         return _by_impl_obs(impl)
     if impl['mode'] == 'pr':
@@ -1248,7 +1333,7 @@ def impl_obs(impl):
     for e in impl['log']:
         if e[0] == 'C':
             c = impl['cmds'][e[1]]
-            trace.append(['C', c['verb'], c['pfx'], c['ts']])
+            trace.append(['C', c['verb'], c['pfx'], c['ts'], c['wire']])
         elif e[0] == 'ret':
             trace.append(['R', e[1], e[2]])
         elif e[0] == 'K':
@@ -1521,6 +1606,15 @@ def extract(repo):
 
     def sl(l):
         return '[' + ', '.join('"%s"' % x for x in l) + ']'
+
+    def module_tuple(path, var):
+        """the class names in a module-level `VAR = (A, b.C, ...)`"""
+        tree = ast.parse(open(os.path.join(repo, 'src', 'ndn', path)).read())
+        for n in tree.body:
+            if isinstance(n, ast.Assign) and any(isinstance(t, ast.Name) and t.id == var for t in n.targets):
+                elts = n.value.elts if isinstance(n.value, ast.Tuple) else [n.value]
+                return [e.attr if isinstance(e, ast.Attribute) else getattr(e, 'id', '?') for e in elts]
+        return []
     rows = [('NfdRegister.register', caught('transport/nfd_registerer.py', 'NfdRegister', 'register')),
             ('NfdRegister.unregister', caught('transport/nfd_registerer.py', 'NfdRegister', 'unregister')),
             ('app.register', caught('app.py', 'NDNApp', 'register')),
@@ -1538,6 +1632,9 @@ def extract(repo):
             f'def controlResponseFields : List String :=\n  {sl(names(nfd_mgmt.ControlResponse))}\n\n'
             'def caught : List (String × List String) :=\n  [' +
             ',\n   '.join(f'("{n}", {sl(c)})' for n, c in rows) + ']\n\n'
+            '/-- the classes in `MALFORMED_RESPONSE` of nfd_registerer.py (what `NfdRegister` catches around '
+            '`parse_response`) -/\n'
+            f"def malformedResponse : List String :=\n  {sl(module_tuple('transport/nfd_registerer.py', 'MALFORMED_RESPONSE'))}\n\n"
             '/-- `_encoded_fields` of the live model classes, as schemas of the generic TLV codec -/\n'
             f'def controlParametersValueLive : List Schema :=\n  {live(nfd_mgmt.ControlParametersValue)}\n\n'
             f'def controlParametersLive : List Schema :=\n  {live(nfd_mgmt.ControlParameters)}\n\n'
@@ -1558,12 +1655,22 @@ LEVEL_TEXT = ('Lean 4 theorems over a hand-written model of NfdRegister.register
               'command name + ParametersSha256Digest, and passes the parameters-digest and DigestSha256 checks on the '
               'ranges the parser reports; the legacy make_command name is the v2 name + timestamp + nonce + SignatureInfo '
               '+ SignatureValue = H(preceding components); parse_response of the encoded ControlResponse returns the '
-              'encoded fields and agrees with the record-level model. The model is tied to the code on every run by differential execution against '
+              'encoded fields and agrees with the record-level model. Composed (runW: reply bytes -> reply kinds -> state '
+              'machine -> command wires), for every history and both front-ends: every wire on the face is produced '
+              'without error and a forwarder decoding it (C07 packet decoder, C08 ControlParameters decoder) finds the '
+              'requested verb, exactly the requested prefix, valid parameters digest, signature = H(signed portion) and '
+              'the signed timestamp; the timestamps read back from the wires are strictly increasing; for EVERY byte '
+              'string arriving as the answer the call in flight either is unaffected (not a Data packet) or returns, '
+              'normally, True iff the bytes say status 200 (in a Data whose digest verifies, on the legacy front-end); '
+              'the forwarder\'s encoded status decides the result end to end; every exception class parse_response can '
+              'raise on any bytes is in the except tuples generated from the source. unregister of both front-ends '
+              'takes the command lock like register (nothing is ever in flight outside it); the unserialised legacy '
+              'unregister of the unchanged tree is a configuration of the model with its counterexample. The model is tied to the code on every run by differential execution against '
               'the real NDNApp/NfdRegister on a virtual-time loop with a scripted forwarder, and by the oracle which '
               'decodes every emitted command Interest and checks names, digest and signature.')
 LEVEL_NOTE = ('Proof is about the model; model=code is sampled (differential testing), not proved. Command/response bytes '
-              'are proved for the byte-level model (generic codec + packet model, hash as a parameter); that the state '
-              'machine emits exactly that command per call is checked on the wire by the oracle. The unserialised '
-              'legacy unregister of the unchanged tree is outside the model (replay only).')
+              'are proved for the composed model (state machine + generic codec + packet model, hash as a parameter); '
+              'that the real front-ends emit exactly those bytes and take the reply bytes the same way is compared '
+              'byte for byte on every scenario.')
 TECHNIQUE = 'Lean 4 proof (invariants over event histories, refinement of a FIFO lock) + model/implementation correspondence check'
 DESIGN_REF = 'DESIGN.md section 7, C17; finding F13'
